@@ -24,9 +24,10 @@ TD, TF, TC = R.T_DONE, R.T_FAILED, R.T_CANCELED
 PD, PF, PC = R.P_DONE, R.P_FAILED, R.P_CANCELED
 
 DEVS = ['DevFinalRaise', 'DevPilotCbAll', 'DevPilotCbCanceled', 'DevPBatchFirst', 'DevPFinalRaise',
-        'DevRemovedUnwatched']
+        'DevRemovedUnwatched', 'DevApplyNoRecheck', 'DevApplyOverCanceled', 'DevLoopAborts',
+        'DevAddLastWatched', 'DevAnnounceUnapplied']
 
-INV_C06 = ['Monotone', 'AtMostOnce', 'GapsFilled', 'BatchIsolation']
+INV_C06 = ['Monotone', 'AtMostOnce', 'GapsFilled', 'BatchIsolation', 'CbAgrees']
 INV_C13 = ['OwnFail', 'OthersKeep']
 INV_C14 = ['PMonotone', 'PGapsFilled', 'PFinalNotLeft', 'UnknownIgnored']
 INVARIANTS = ['TypeOK'] + INV_C06 + INV_C13 + INV_C14 + ['PBatchComplete']
@@ -36,9 +37,11 @@ WORKERS = 8
 
 
 def _scen(NT=NT, NP=NP, tasks=('t1', 't2'), unk=(), pilots=(), punk=(), ptypes=('pilot',),
-          mb=1, mpb=0, bindat=R.BIND_AT, early=False, direct=False, remove=False):
+          mb=1, mpb=0, bindat=R.BIND_AT, early=False, direct=False, remove=False,
+          race=False, lateadd=False):
     return dict(NT=NT, NP=NP, tasks=tasks, unk=unk, pilots=pilots, punk=punk, ptypes=ptypes,
-                mb=mb, mpb=mpb, bindat=bindat, early=early, direct=direct, remove=remove)
+                mb=mb, mpb=mpb, bindat=bindat, early=early, direct=direct, remove=remove,
+                race=race, lateadd=lateadd)
 
 
 # small-scope instances of the design model, exhaustive
@@ -49,14 +52,25 @@ SCENARIOS = {
     # C13: every assignment x every task state x every order of pilot deaths
     'death-q' : _scen(NT=4, NP=2, tasks=('t1', 't2'), pilots=('p1', 'p2'), mb=1, bindat=2,
                       early=True, direct=True),
-    # C13 through the pmgr -> pilot -> tmgr chain; pilots may also be removed from
-    # the task manager, in any order relative to bindings and deaths
+    # C13 through the pmgr -> pilot -> tmgr chain; pilots reach the task manager
+    # through add_pilots (alone or as a list) and may be removed from it, in any
+    # order relative to bindings and deaths
     'chain-q' : _scen(NT=3, NP=2, tasks=('t1',), pilots=('p1', 'p2'), mb=1, mpb=1, bindat=1,
-                      early=True, remove=True),
+                      early=True, remove=True, lateadd=True),
     'chain-t' : _scen(NT=3, NP=2, tasks=('t1', 't2'), pilots=('p1', 'p2'), mb=1, mpb=1, bindat=1,
                       early=True, remove=True),
     'death-t' : _scen(NT=4, NP=2, tasks=('t1', 't2', 't3'), pilots=('p1', 'p2'), mb=1, bindat=2,
                       early=True, direct=True),
+    # C06 / C13: the pilot callback as a second writer of Task.state (select, then
+    # apply FAILED task by task), notifications in between; Task._update on final tasks
+    # and _update_tasks step by step (select, apply, fire) with the callback in between
+    'race-q'  : _scen(NT=2, NP=2, tasks=('t1', 't2'), pilots=('p1',), mb=1, bindat=1,
+                      early=True, direct=True, race=True),
+    'race-t'  : _scen(NT=3, NP=2, tasks=('t1', 't2'), pilots=('p1', 'p2'), mb=1, bindat=1,
+                      early=True, direct=True, race=True),
+    # C13: add_pilots with three pilots, any grouping, any time
+    'add-t'   : _scen(NT=2, NP=2, tasks=('t1', 't2'), pilots=('p1', 'p2', 'p3'), mb=0, mpb=1,
+                      bindat=1, early=True, lateadd=True),
     # C14a: two pilots + an unknown one, every batch of <= 2 entries; the task
     # manager's callback hangs on the pilots
     'pilots-q': _scen(NT=2, tasks=('t1',), pilots=('p1', 'p2'), punk=('px',), mb=0, mpb=2,
@@ -68,14 +82,16 @@ SCENARIOS = {
 # instances with the real state chains, simulated to obtain behaviours
 SIM = {
     'sim-tasks' : _scen(tasks=('t1', 't2', 't3'), unk=('tx',), pilots=('p1', 'p2'), mb=4,
-                        early=True, direct=True, remove=True),
+                        early=True, direct=True, remove=True, race=True),
     'sim-pilots': _scen(tasks=('t1', 't2'), pilots=('p1', 'p2'), punk=('px',),
                         ptypes=('pilot', 'task', 'none'), mb=2, mpb=3, early=True, remove=True),
+    'sim-all'   : _scen(tasks=('t1', 't2', 't3'), unk=('tx',), pilots=('p1', 'p2', 'p3'), punk=('px',),
+                        mb=3, mpb=2, early=True, direct=True, remove=True, race=True, lateadd=True),
 }
 
 PLAN = {   # property -> (exhaustive scenarios quick / thorough only, simulated instances)
-    'C06': (['tasks-q'],  ['tasks-t'],  ['sim-tasks']),
-    'C13': (['death-q', 'chain-q'],  ['death-t', 'chain-t'],  ['sim-tasks', 'sim-pilots']),
+    'C06': (['tasks-q', 'race-q'],  ['tasks-t', 'race-t'],  ['sim-tasks']),
+    'C13': (['death-q', 'chain-q'],  ['death-t', 'chain-t', 'race-t', 'add-t'],  ['sim-all']),
     'C14': (['pilots-q'], ['pilots-t'], ['sim-pilots']),
 }
 
@@ -83,10 +99,15 @@ PLAN = {   # property -> (exhaustive scenarios quick / thorough only, simulated 
 DEVIATIONS = {
     'C06': [('DevFinalRaise',      'tasks-q',  ['BatchIsolation'], [], 'BatchIsolation'),
             ('DevFinalRaise',      'tasks-q',  ['GapsFilled'],     [], 'GapsFilled'),
-            ('DevPilotCbCanceled', 'death-q',  [], ['FinalSticky'],    'FinalSticky')],
+            ('DevPilotCbCanceled', 'death-q',  [], ['FinalSticky'],    'FinalSticky'),
+            ('DevApplyNoRecheck',    'race-q', [], ['FinalSticky'],    'FinalSticky'),
+            ('DevApplyOverCanceled', 'race-q', [], ['FinalSticky'],    'FinalSticky'),
+            ('DevAnnounceUnapplied', 'race-q', ['CbAgrees'], [],       'CbAgrees')],
     'C13': [('DevPilotCbAll',      'death-q',  INV_C13, [], 'OthersKeep'),
             ('DevPilotCbCanceled', 'death-q',  INV_C13, [], 'OthersKeep'),
-            ('DevRemovedUnwatched', 'chain-q', INV_C13, [], 'OwnFail')],
+            ('DevRemovedUnwatched', 'chain-q', INV_C13, [], 'OwnFail'),
+            ('DevLoopAborts',       'race-q',  INV_C13, [], 'OwnFail'),
+            ('DevAddLastWatched',   'chain-q', INV_C13, [], 'OwnFail')],
     # D19 and the raise on DONE -> FAILED lose notifications but leave what C14
     # states intact: the C14 invariants hold, PBatchComplete (no property) fails
     'C14': [('DevPBatchFirst',     'pilots-q', INV_C14, ['PFinalNotLeftAct'], None),
@@ -108,10 +129,11 @@ def _bool(b):
 def cfg_constants(sc, devs=()):
     c = ('CONSTANTS\n NT = %d\n NP = %d\n Tasks = %s\n UnknownTasks = %s\n Pilots = %s\n'
          ' UnknownPilots = %s\n PTypes = %s\n MaxBatch = %d\n MaxPBatch = %d\n BindAt = %d\n'
- ' EarlyBind = %s\n DirectFinal = %s\n AllowRemove = %s\n'
+         ' EarlyBind = %s\n DirectFinal = %s\n AllowRemove = %s\n Race = %s\n LateAdd = %s\n'
          % (sc['NT'], sc['NP'], _set(sc['tasks']), _set(sc['unk']), _set(sc['pilots']),
             _set(sc['punk']), _set(sc['ptypes']), sc['mb'], sc['mpb'], sc['bindat'],
-            _bool(sc['early']), _bool(sc['direct']), _bool(sc['remove'])))
+            _bool(sc['early']), _bool(sc['direct']), _bool(sc['remove']),
+            _bool(sc['race']), _bool(sc['lateadd'])))
     for d in DEVS:
         c += ' %s = %s\n' % (d, _bool(d in devs))
     return c
@@ -132,8 +154,11 @@ def mc_files(sc, devs=(), invariants=None, props=None):
 MCSIM = r'''---- MODULE MCSim ----
 EXTENDS ClientState
 VARIABLES pick, last
-Kinds == {"N", "B"} \cup (IF DirectFinal THEN {"F"} ELSE {}) \cup (IF MaxPBatch > 0 THEN {"P"} ELSE {})
-         \cup (IF AllowRemove THEN {"R"} ELSE {})
+Kinds == IF dying # None THEN {"N", "A", "E"}          \* a pilot callback is in progress
+         ELSE IF nphase # "idle" THEN {"T", "F"}         \* _update_tasks is in progress
+         ELSE (IF Race THEN {"NB"} ELSE {}) \cup {"N", "B"} \cup (IF DirectFinal THEN {"F"} ELSE {}) \cup (IF MaxPBatch > 0 THEN {"P"} ELSE {})
+              \cup (IF AllowRemove THEN {"R"} ELSE {}) \cup (IF Race THEN {"S", "U"} ELSE {})
+              \cup (IF LateAdd THEN {"G"} ELSE {})
 \* random batches (simulation only): one successor per batch length
 RandT(k) == [i \in 1 .. k |-> RandomElement(TEntries)]
 RandP(k) == [i \in 1 .. k |-> RandomElement(PEntries)]
@@ -150,6 +175,22 @@ SimNext ==
      /\ \E k \in 1 .. MaxPBatch : \E b \in {RandP(k)} : PNotify(b) /\ last' = <<"pnotify", b>>
   \/ /\ pick = "R" /\ pick' = "none"
      /\ \E p \in Pilots : RemovePilots(p) /\ last' = <<"remove", p>>
+  \/ /\ pick = "NB" /\ pick' = "none"
+     /\ \E k \in 1 .. MaxBatch : \E b \in {RandT(k)} : NBegin(b) /\ last' = <<"nbegin", b>>
+  \/ /\ pick = "T" /\ pick' = "none"
+     /\ \/ NSelect /\ last' = <<"nsel">>
+        \/ NApply  /\ last' = <<"napply", plan[1]>>
+        \/ NToFire /\ last' = <<"ntofire">>
+        \/ NFire   /\ last' = <<"nfire">>
+  \/ /\ pick = "S" /\ pick' = "none"
+     /\ \E p \in Pilots : DeathSelect(p) /\ last' = <<"select", p>>
+  \/ /\ pick = "A" /\ pick' = "none"
+     /\ \E t \in Tasks : DeathApply(t) /\ last' = <<"apply", t>>
+  \/ /\ pick = "E" /\ pick' = "none" /\ DeathEnd /\ last' = <<"end">>
+  \/ /\ pick = "U" /\ pick' = "none"
+     /\ \E t \in Tasks, s \in AllStates(NT) : DirectUpdate(t, s) /\ last' = <<"update", t, s>>
+  \/ /\ pick = "G" /\ pick' = "none"
+     /\ \E G \in SUBSET Pilots : AddPilots(G) /\ last' = <<"add", G>>
   \/ /\ pick # "none" /\ pick' = "none" /\ last' = <<"skip">> /\ UNCHANGED vars
 SimSpec == SimInit /\ [][SimNext]_<<vars, pick, last>>
 ====
@@ -163,19 +204,70 @@ def sim_files(sc):
     return {'MCSim.tla': MCSIM, 'MCSim.cfg': cfg}
 
 
-def ops_from_behaviour(path, rng):
+def ops_from_behaviour(path, rng, rich=True):
     '''(init_bound, ops) of one simulated behaviour of MCSim'''
     steps = tlc.parse_sim_file(path)
     if not steps:
         return None, []
     bound = steps[0][2].get('bound', {})
     ops   = []
+    race  = None          # death_race operation under construction
+    held  = []            # notifications since the last step of the callback
+    nrace = None          # notify_race operation under construction
+    done  = {}            # ... Task._update calls per uid / callbacks fired so far
     for _, _, st in steps[1:]:
         last = st.get('last')
         if not isinstance(last, list) or not last or last[0] == 'skip':
             continue
+        if last[0] == 'nbegin':
+            nrace = ['notify_race', [[e[0], e[1], random_tdoc(rng, rich)] for e in last[1]], []]
+            done  = {'fire': 0}
+        elif last[0] == 'napply' and nrace:
+            done[last[1]] = done.get(last[1], 0) + 1
+        elif last[0] == 'nfire' and nrace:
+            done['fire'] += 1
+        elif last[0] == 'final' and nrace:
+            # where _update_tasks stands when the pilot callback runs
+            plan, rest = st.get('plan') or [], st.get('nb') or []
+            if st.get('nphase') == 'fire':
+                point = ['fire', done['fire']]
+            elif plan:
+                point = [plan[0], done.get(plan[0], 0)]
+            elif rest:
+                point = [rest[0][0], done.get(rest[0][0], 0)]
+            else:
+                point = ['fire', 0]
+            nrace[2].append([point, ['pilot_final', last[1], rng.choice([PD, PF, PC]),
+                                     rng.choice(['list', 'single']), False]])
+        if nrace and st.get('nphase') == 'idle' and last[0] in ('ntofire', 'nfire'):
+            ops.append(nrace)
+            nrace = None
+        if last[0] in ('nbegin', 'nsel', 'napply', 'ntofire', 'nfire') or (last[0] == 'final' and nrace):
+            continue
         if last[0] == 'notify':
-            ops.append(['notify', [[e[0], e[1], random_tdoc(rng)] for e in last[1]]])
+            batch = [[e[0], e[1], random_tdoc(rng, rich)] for e in last[1]]
+            if race:
+                held += batch
+            else:
+                ops.append(['notify', batch])
+        elif last[0] == 'select':
+            race, held = ['death_race', last[1], rng.choice([PD, PF, PC]),
+                          rng.choice(['list', 'single']), []], []
+        elif last[0] == 'apply' and race:
+            if held:                       # delivered when the callback is about to fail this task
+                race[4].append([last[1], held])
+                held = []
+        elif last[0] == 'end' and race:
+            ops.append(race)
+            if held:
+                ops.append(['notify', held])
+            race, held = None, []
+        elif last[0] == 'update':
+            ops.append(['task_update', last[1], last[2],
+                        {'exception': 'RuntimeError("late")', 'exception_detail': 'late update'}])
+        elif last[0] == 'add':
+            group = sorted(last[1])
+            ops.append(['add_pilots', group[0] if len(group) == 1 and rng.random() < 0.5 else group])
         elif last[0] == 'remove':
             ops.append(['remove_pilots', rng.choice([last[1], [last[1]]])])
         elif last[0] == 'bind':
@@ -185,6 +277,12 @@ def ops_from_behaviour(path, rng):
                         rng.choice(['list', 'single']), rng.random() < 0.5])
         elif last[0] == 'pnotify':
             ops.append(['pnotify', [[e[0], e[1], e[2], random_doc(rng)] for e in last[1]]])
+    if race:
+        ops.append(race)
+        if held:
+            ops.append(['notify', held])
+    if nrace:
+        ops.append(nrace)
     return bound, ops
 
 
@@ -232,13 +330,18 @@ def tdoc_variants():
 TDOCS = tdoc_variants()
 
 
-def random_tdoc(rng):
+def random_tdoc(rng, rich=True):
+    '''rich: include documents that make Task.as_dict raise (slots as one dict)'''
     if rng.random() < 0.6:
         return {}
     if rng.random() < 0.3:
-        return rng.choice(TDOCS)
-    keys = rng.sample(sorted(R.TASK_DOC_FIELDS), rng.randint(1, 3))
-    return {k: rng.choice(R.TASK_DOC_FIELDS[k]) for k in keys}
+        doc = rng.choice(TDOCS)
+    else:
+        keys = rng.sample(sorted(R.TASK_DOC_FIELDS), rng.randint(1, 3))
+        doc  = {k: rng.choice(R.TASK_DOC_FIELDS[k]) for k in keys}
+    if not rich and isinstance(doc.get('slots'), dict):
+        doc = {k: v for k, v in doc.items() if k != 'slots'}
+    return doc
 
 
 def enum_taskdocs():
@@ -290,6 +393,142 @@ def enum_remove(quick):
 
 def ru_list(x):
     return x if isinstance(x, list) else [x]
+
+
+def enum_race(quick):
+    '''two writers of Task.state.  (a) the pilot callback has selected a victim,
+       the state subscriber delivers a notification (for the victim, for a later
+       or an earlier victim, for a bystander), then the callback applies FAILED:
+       every victim position x every notification kind x both call forms;
+       (b) Task._update called directly on a final task, every target state'''
+    tasks, pilots = ['t1', 't2', 't3', 't4'], ['p1', 'p2']
+    init = {'t1': 'p1', 't2': 'p1', 't3': 'p1', 't4': 'p2'}
+    pres = [9, NT - 1] if quick else [1, 9, NT - 2, NT - 1]
+    n = 0
+    for pre in pres:
+        setup = ['notify', [[u, pre] for u in tasks]]
+        for victim in ('t1', 't2', 't3'):
+            others = [u for u in ('t1', 't2', 't3') if u != victim]
+            batches = [[[victim, TD]], [[victim, TC]], [[victim, TF]],
+                       [[victim, min(pre + 1, NT - 1)]],
+                       [[victim, TD, {'exit_code': 0, 'stdout': 'result'}], [others[0], TC]],
+                       [[others[1], TD], [victim, TC, {'stderr': 'canceled'}]],
+                       [['t4', TC], [victim, NT - 1], [victim, TD]]]
+            for batch in batches:
+                n += 1
+                ops = [setup, ['death_race', 'p1', [PF, PC, PD][n % 3], ['list', 'single'][n % 2],
+                               [[victim, batch]]],
+                       ['notify', [[u, TD] for u in tasks]]]
+                yield (tasks, pilots, init, ops)
+        # two windows in one callback
+        yield (tasks, pilots, init,
+               [setup, ['death_race', 'p1', PF, 'list', [['t1', [['t2', TC]]], ['t3', [['t3', TD]]]]]])
+        yield (tasks, pilots, init,
+               [setup, ['death_race', 'p1', PC, 'single', [['t2', [['t1', TD], ['t3', TC]]]]]])
+    extras = {'exception': 'RuntimeError("pilot died")', 'exception_detail': 'pilot p1 is final'}
+    for fin in (TD, TF, TC):
+        for tgt in range(NT + 3):
+            yield (['t1', 't2'], ['p1'], {'t1': 'p1'},
+                   [['notify', [['t1', fin], ['t2', 5]]], ['task_update', 't1', tgt, extras],
+                    ['notify', [['t1', TD], ['t2', 6]]]])
+
+
+def enum_revrace(quick):
+    '''the same two writers the other way round: _update_tasks is under way (the
+       passed states are computed / some are applied / callbacks are being
+       fired) when the pilot callback runs: every point of a batch x kinds of
+       batches x the pilot of the task or another one, both call forms'''
+    tasks, pilots = ['t1', 't2', 't3'], ['p1', 'p2']
+    init = {'t1': 'p1', 't2': 'p1', 't3': 'p2'}
+    n = 0
+    for pre in ([NT - 3] if quick else [2, NT - 3, NT - 1]):
+        setup = ['notify', [['t1', pre], ['t2', 3], ['t3', pre]]]
+        steps = NT - pre                                   # Task._update calls up to DONE
+        for batch in ([['t1', TD]], [['t2', 5], ['t1', TD]], [['t1', TD], ['t2', TD]],
+                      [['t1', TF]], [['t1', TC]], [['t1', pre + 1]], [['t1', TD], ['t3', TD]]):
+            pts  = [['t1', k] for k in range(min(steps, 3))] + [['t2', 0], ['fire', 0], ['fire', 1]]
+            for pt in pts:
+                for death in (['pilot_final', 'p1', PF, 'list', False],
+                              ['pilot_final', 'p1', PC, 'single', True],
+                              ['pilot_final', 'p2', PD, 'list', False]):
+                    n += 1
+                    if quick and n % 2 and death[1] == 'p2':
+                        continue
+                    yield (tasks, pilots, init,
+                           [setup, ['notify_race', batch, [[pt, death]]],
+                            ['notify', [[u, TD] for u in tasks]]])
+        # two interruptions of one call
+        yield (tasks, pilots, init,
+               [setup, ['notify_race', [['t1', TD], ['t3', TD]],
+                        [[['t1', 1], ['pilot_final', 'p2', PF, 'list', False]],
+                         [['t3', 1], ['pilot_final', 'p1', PC, 'single', False]]]]])
+
+
+def enum_modes(quick):
+    '''the pilot's tasks are of all kinds: a service task (still starting up)
+       and / or a task whose document cannot be built (as_dict raises: slots
+       published as one dict by the hombre scheduler, or an injected fault)
+       before, between and after ordinary tasks; every later non-final task of
+       the pilot is still FAILED and handed on'''
+    tasks, pilots = ['t1', 't2', 't3', 't4', 't5'], ['p1', 'p2']
+    init   = {'t1': 'p1', 't2': 'p1', 't3': 'p1', 't4': 'p2'}
+    legacy = R.TASK_DOC_FIELDS['slots'][2]
+    deaths = [['pilot_final', 'p1', PF, 'list', True], ['pilot_final', 'p1', PC, 'single', False],
+              ['pnotify', [['pilot', 'p1', PF]]], ['death_race', 'p1', PD, 'list', []]]
+    n = 0
+    for svc in (None, 't1', 't2', 't3', 't4'):
+        for bad, how in ((None, None), ('t1', 'slots'), ('t2', 'slots'), ('t3', 'slots'),
+                         ('t1', 'fault'), ('t2', 'fault'), ('t3', 'fault'), ('t4', 'fault')):
+            for death in deaths:
+                n += 1
+                if quick and bad and svc and (n % 2):
+                    continue
+                modes = {svc: 'service'} if svc else {}
+                ops = [['notify', [['t1', 10], ['t2', 8], ['t3', 10], ['t4', 10], ['t5', 2]]]]
+                if how == 'slots':
+                    ops.append(['notify', [[bad, 11, {'slots': legacy}]]])
+                if how == 'fault':
+                    ops.append(['fault', bad])
+                ops += [death, ['fault', 'none'], ['pnotify', [['pilot', 'p2', PC]]]]
+                yield (tasks, pilots, init, ops, modes, None)
+
+
+def _compositions(n):
+    if n == 0:
+        yield []
+    for k in range(1, n + 1):
+        for rest in _compositions(n - k):
+            yield [k] + rest
+
+
+def enum_add(quick):
+    '''add_pilots with lists of 1..3 pilots in every grouping and order, some
+       groups when the session starts, the others later; then each pilot ends:
+       every one of them is watched, not only the last of a list'''
+    tasks = ['t1', 't2', 't3', 't4']
+    n = 0
+    for perm in itertools.permutations(['p1', 'p2', 'p3']):
+        for comp in _compositions(3):
+            groups, i = [], 0
+            for k in comp:
+                groups.append(list(perm[i:i + k]))
+                i += k
+            for late in range(len(groups) + 1):          # the last `late` groups join later
+                n += 1
+                if quick and len(comp) == 3 and n % 2:
+                    continue
+                # a list of one and the bare object are both legal
+                form   = lambda g, j: g[0] if len(g) == 1 and (n + j) % 2 else g
+                first  = [form(g, j) for j, g in enumerate(groups[:len(groups) - late])]
+                rest   = [form(g, j) for j, g in enumerate(groups[len(groups) - late:])]
+                ops    = [['add_pilots', g] for g in rest]
+                ops   += [['bind', 't%d' % (j + 1), pid] for j, pid in enumerate(perm)]
+                ops   += [['notify', [['t1', 9], ['t2', 6], ['t3', 12], ['t4', 2]]]]
+                order  = list(perm) if n % 2 else list(reversed(perm))
+                for j, pid in enumerate(order):
+                    ops.append(['pnotify', [['pilot', pid, [PF, PC, PD][(n + j) % 3],
+                                             DOCS[(n + j) % len(DOCS)]]]])
+                yield (tasks, ['p1', 'p2', 'p3'], {}, ops, {}, first)
 
 
 def enum_docs():
@@ -347,6 +586,10 @@ def enum_c06(quick):
                    ([['notify', [['t1', s]]]] if s else []) +
                    [['notify', [['t2', (s + k) % (NT + 3)]]], death,
                     ['notify', [['t1', TD], ['t2', NT - 1]]]])
+    for case in enum_race(quick):
+        yield case
+    for case in enum_revrace(quick):
+        yield case
 
 
 def enum_c13(quick):
@@ -397,6 +640,14 @@ def enum_c13(quick):
         yield case
     for case in enum_remove(quick):
         yield case
+    for case in enum_modes(quick):
+        yield case
+    for case in enum_add(quick):
+        yield case
+    for case in enum_race(True):
+        yield case
+    for case in enum_revrace(True):
+        yield case
 
 
 def enum_c14(quick):
@@ -442,37 +693,78 @@ def _pick_state(rng, cur, n):
     return rng.choice([n, n + 1, n + 2])
 
 
-def random_case(rng):
+def random_case(rng, rich=True):
     nt     = rng.randint(2, 4)
     tasks  = ['t%d' % (i + 1) for i in range(nt)]
     pilots = ['p1', 'p2', 'p3'][:rng.randint(1, 3)]
     init   = {t: rng.choice(pilots) for t in tasks if rng.random() < 0.3}
-    rig    = R.ClientRig(tasks, pilots, init)     # scratch instance to follow the states
+    modes  = {t: 'service' for t in tasks if rng.random() < 0.15}
+    # how the pilots reach the task manager: one call each, or lists, or later
+    add, later = None, []
+    if rng.random() < 0.4:
+        order = rng.sample(pilots, len(pilots))
+        k     = rng.randint(0, len(order))
+        add   = [order[:k]] if k > 1 else list(order[:k])
+        later = order[k:]
+    rig    = R.ClientRig(tasks, pilots, init, modes, add)   # scratch instance to follow the states
     ops    = []
     for _ in range(rng.randint(3, 8)):
         r = rng.random()
         tst = {t: R.tcode(rig.tm._tasks[t].state) for t in tasks}
         pst = {p: R.pcode(rig.pm._pilots[p].state) for p in pilots}
-        if r < 0.50:
+        if later and rng.random() < 0.5:
+            k  = rng.randint(1, len(later))
+            op = ['add_pilots', later[0] if k == 1 and rng.random() < 0.5 else later[:k]]
+            later = later[k:]
+        elif r < 0.45:
             b = []
             for _ in range(rng.choice([1, 1, 2, 2, 3, 4, 5])):
                 u = rng.choice(tasks + ['tx'])
-                b.append([u, _pick_state(rng, tst.get(u, 0), NT), random_tdoc(rng)])
+                b.append([u, _pick_state(rng, tst.get(u, 0), NT), random_tdoc(rng, rich)])
             op = ['notify', b]
+        elif r < 0.50:
+            u  = rng.choice(tasks)
+            op = ['task_update', u, rng.choice([TD, TF, TC]) if tst[u] >= NT else TF,
+                  {'exception': 'RuntimeError("x")', 'exception_detail': 'direct update'}]
         elif r < 0.65:
             cand = [t for t in tasks if tst[t] < R.BIND_AT and (rig.tm._tasks[t].pilot is None)]
             live = [p for p in pilots if pst[p] < NP and p not in dead_of(ops)
-                    and p not in removed_of(ops)]
+                    and p not in removed_of(ops) and p not in later]
             if not cand or not live:
                 continue
             op = ['bind', rng.choice(cand), rng.choice(live)]
         elif r < 0.70:
-            cand = [p for p in pilots if p not in removed_of(ops)]
+            cand = [p for p in pilots if p not in removed_of(ops) and p not in later]
             if not cand:
                 continue
             p  = rng.choice(cand)
             op = ['remove_pilots', rng.choice([p, [p]])]
-        elif r < 0.78:
+        elif r < 0.74:
+            live = [p for p in pilots if p not in dead_of(ops) and pst[p] < NP]
+            if not live:
+                continue
+            p    = rng.choice(live)
+            mine = [t for t in tasks if rig.tm._tasks[t].pilot == p and tst[t] < NT]
+            wins = []
+            for t in rng.sample(mine, min(len(mine), rng.randint(0, 2))):
+                u = rng.choice(mine)
+                wins.append([t, [[u, rng.choice([TD, TC, TF, min(tst[u] + 1, NT - 1)])]]])
+            op = ['death_race', p, rng.choice([PD, PF, PC]), rng.choice(['list', 'single']), wins]
+        elif r < 0.77:
+            live = [p for p in pilots if p not in dead_of(ops) and pst[p] < NP]
+            cand = [t for t in tasks if tst[t] < NT]
+            if not live or not cand:
+                continue
+            u   = rng.choice(cand)
+            tgt = rng.choice([TD, TD, TF, TC, min(tst[u] + rng.randint(1, 3), NT - 1)])
+            b   = [[u, tgt, random_tdoc(rng, rich)]]
+            if rng.random() < 0.4:
+                v = rng.choice(tasks)
+                b.insert(rng.randint(0, 1), [v, _pick_state(rng, tst[v], NT)])
+            pt  = rng.choice([[u, 0], [u, 1], [u, 2], ['fire', 0], ['fire', 1]])
+            op  = ['notify_race', b, [[pt, ['pilot_final', rng.choice(live), rng.choice([PD, PF, PC]),
+                                            rng.choice(['list', 'single']), False]]]]
+        elif r < 0.80:
             live = [p for p in pilots if p not in dead_of(ops) and pst[p] < NP]
             if not live:
                 continue
@@ -487,11 +779,13 @@ def random_case(rng):
             op = ['pnotify', b]
         ops.append(op)
         rig.apply(op)
-    return (tasks, pilots, init, ops)
+    rig._set_fault(None)
+    return (tasks, pilots, init, ops, modes, add)
 
 
 def dead_of(ops):
-    return set(op[1] for op in ops if op[0] == 'pilot_final')
+    return set(op[1] for op in ops if op[0] in ('pilot_final', 'death_race')) | \
+           set(pt[1][1] for op in ops if op[0] == 'notify_race' for pt in op[2])
 
 
 def removed_of(ops):
@@ -499,9 +793,16 @@ def removed_of(ops):
 
 
 # ------------------------------------------------------------------------------
+FAULTY_INJ   = 'per-task exception in the pilot callback loop (as_dict fault injected)'
+FAULTY_SLOTS = 'per-task exception in the pilot callback loop (as_dict raises: slots published ' \
+               'as one dict by the hombre scheduler)'
+FAULTY_OTHER = 'per-task exception in the pilot callback loop (as_dict of a task raises on its own)'
+DEATHS = ('PilotFinal', 'PNotify', 'DeathApply', 'DeathEnd')
+
 CLS = {
     'C13.OwnFail'           : 'task bound to the dying pilot',
     'C13.OwnFailDetail'     : 'task bound to the dying pilot',
+    'C13.OwnFailPublished'  : 'task bound to the dying pilot',
     'C13.OthersKeepBound'   : 'task bound to another pilot',
     'C13.OthersKeepUnbound' : 'task not bound to any pilot',
     'C13.OthersKeepFinal'   : 'task already final',
@@ -525,15 +826,56 @@ def _contradictory(trace):
     return False
 
 
+def _faulty(trace):
+    '''a pilot callback ran while the document of one of the tasks could not be
+       built (Task.as_dict raises): because the rig injected that, because the
+       task's slots are one dict, or for a reason of its own'''
+    bad = [o for e in trace['events'] if e['ev'] in DEATHS
+           for o in e['tpost'].values() if not o['asd']]
+    if not bad:
+        return None
+    if all(o['inj'] for o in bad):
+        return FAULTY_INJ
+    if all(o['inj'] or o['sk'] == 'dict' for o in bad):
+        return FAULTY_SLOTS
+    return FAULTY_OTHER
+
+
+def _final_written(trace):
+    '''a final task changed state in a direct Task._update (by the pilot
+       callback after a notification, or called as such): kind of the task'''
+    st = {u: 0 for u in trace['tasks']}
+    for e in trace['events']:
+        hit = [u for u in st if st[u] >= NT and e['tpost'][u]['st'] != st[u]]
+        if hit and e['ev'] in ('DeathApply', 'TaskUpdate', 'DeathEnd'):
+            if all(st[u] == TC for u in hit):
+                return 'CANCELED task written by Task._update (pilot callback racing the ' \
+                       'notification, or direct update)'
+            return 'DONE / FAILED task written by Task._update (pilot callback racing ' \
+                   'the notification, or direct update)'
+        st = {u: e['tpost'][u]['st'] for u in st}
+    return None
+
+
+INTERRUPTED = 'pilot callback running while _update_tasks is under way'
+
+
 def classify(trace, clause):
+    if clause.startswith('C13.OwnFail') and _faulty(trace):
+        return _faulty(trace)
+    if clause.startswith('C06.') and not _final_written(trace) and \
+       any(e['ev'] == 'NotifyPartial' for e in trace['events']):
+        return INTERRUPTED
+    if clause.startswith('C06.') and _final_written(trace):
+        return _final_written(trace)       # also what follows from it later in the trace
     if clause in CLS:
         return CLS[clause]
     if clause.startswith('C06.'):
         if clause == 'C06.FinalSticky':
             st = {u: 0 for u in trace['tasks']}
             for e in trace['events']:
-                if e['ev'] in ('PilotFinal', 'PNotify') and \
-                   any(st[u] >= NT and e['tpost'][u]['st'] != st[u] for u in st):
+                hit = [u for u in st if st[u] >= NT and e['tpost'][u]['st'] != st[u]]
+                if hit and e['ev'] in ('PilotFinal', 'PNotify'):
                     return 'final task hit by the final-pilot callback'
                 st = {u: e['tpost'][u]['st'] for u in st}
         if _contradictory(trace):
@@ -569,6 +911,10 @@ def _nontrivial_keys(trace):
         elif e['ev'] == 'PilotFinal':
             keys.add(('F', tuple(sorted(tst.items())), e['pilot'],
                       tuple(sorted((u, e['tpost'][u]['pilot']) for u in tst))))
+        elif e['ev'] in ('AddPilots', 'TaskUpdate', 'DeathBegin', 'DeathApply', 'NotifyPartial',
+                         'NotifyBegin'):
+            keys.add((e['ev'], tuple(sorted(tst.items())), str(e.get('pilots', e.get('uid', e.get('pilot')))),
+                      e.get('state', 0), tuple(sorted((u, o['pilot'], o['asd']) for u, o in e['tpost'].items()))))
         tst = {u: e['tpost'][u]['st'] for u in tst}
         pst = {p: e['ppost'][p]['st'] for p in pst}
     return keys
@@ -580,7 +926,9 @@ def _check_traces(chk, cases, label):
        all of them), report; label: one string, or one per case'''
     pid    = chk.pid
     labels = [label] * len(cases) if isinstance(label, str) else label
-    traces = [R.run_ops(t, p, i, ops, iso=(pid == 'C06')) for t, p, i, ops in cases]
+    cases  = [tuple(c) + (None, None)[:6 - len(c)] for c in cases]
+    traces = [R.run_ops(t, p, i, ops, iso=(pid == 'C06'), modes=m, add=a)
+              for t, p, i, ops, m, a in cases]
     if not traces:
         return {}
     res, st = tracecheck.validate('ClientState', 'ClientStateTrace', R.constants_text(),
@@ -599,10 +947,20 @@ def _check_traces(chk, cases, label):
                 notes[err] = notes.get(err, 0) + 1
             if pre != pid:
                 continue
-            chk.violation(err, classify(tr, err),
+            cls = classify(tr, err)
+            if cls in (FAULTY_INJ, FAULTY_SLOTS):
+                # inputs this tree cannot produce (the fault is the rig's own; slots
+                # as one dict only come from the HOMBRE agent scheduler, which places
+                # no task here): recorded, not reported
+                key = 'N.%s[%s]' % (err, 'injected as_dict fault' if cls == FAULTY_INJ
+                                         else 'slots as one dict')
+                notes[key] = notes.get(key, 0) + 1
+                continue
+            chk.violation(err, cls,
                           'real client-side notification path violates %s (%s)' % (err, label),
                           {'rig': 'clientstate', 'tasks': case[0], 'pilots': case[1],
-                           'init_bound': case[2], 'ops': case[3], 'errs': errs})
+                           'init_bound': case[2], 'ops': case[3], 'modes': case[4] or {},
+                           'add': 'default' if case[5] is None else case[5], 'errs': errs})
     return notes
 
 
@@ -613,6 +971,7 @@ def run(chk, tier, seed):
     rng   = random.Random(seed * 7919 + 17)
     quick = tier == 'quick'
     sq, st_, sims = PLAN[pid]
+    rich  = pid != 'C14'       # task documents / faults that make as_dict raise (C13's space)
 
     # ---- 1. design model, exhaustive --------------------------------------------
     for name in (sq if quick else sq + st_):
@@ -646,7 +1005,7 @@ def run(chk, tier, seed):
 
     # ---- 3. TLC behaviours -> operation sequences for the real code ---------------
     cases = []
-    nsim  = 120 if quick else 1500
+    nsim  = (120 if quick else 1500) * (2 if sims == ['sim-all'] else 1)
     for name in sims:
         dump = tlc.scratch('rpsim_')
         try:
@@ -659,10 +1018,11 @@ def run(chk, tier, seed):
                 raise Machinery('simulation of %s reports %s' % (name, res.violated))
             sc = SIM[name]
             for f in sorted(glob.glob(os.path.join(dump, 'tr_*'))):
-                bound, ops = ops_from_behaviour(f, rng)
+                bound, ops = ops_from_behaviour(f, rng, rich)
                 if ops:
                     cases.append((list(sc['tasks']), list(sc['pilots']),
-                                  {t: b for t, b in (bound or {}).items() if b != 'none'}, ops))
+                                  {t: b for t, b in (bound or {}).items() if b != 'none'}, ops,
+                                  {}, [] if sc['lateadd'] else None))
         finally:
             shutil.rmtree(dump, ignore_errors=True)
     if not cases:
@@ -679,7 +1039,7 @@ def run(chk, tier, seed):
     labels += ['small-scope enumeration'] * len(more)
 
     # ---- 5. seeded random operation sequences ----------------------------------------
-    more = [random_case(rng) for _ in range(400 if quick else 6000)]
+    more = [random_case(rng, rich) for _ in range(400 if quick else 6000)]
     more = [c for c in more if c[3]]
     cases  += more
     labels += ['seeded random'] * len(more)
@@ -693,10 +1053,15 @@ def run(chk, tier, seed):
         'thread calls _state_sub_cb sequentially; exceptions are logged there, return values ignored)',
         'a task is bound when a full task dict carrying `pilot` has moved its state '
         '(the only channel through which the client-side Task learns its pilot)',
+        'the pilot callback and the state subscriber interleave at one schedule point: between '
+        'the callback\'s finality check of a task and its Task._update(FAILED) (the callback '
+        'takes no lock); notifications are delivered there whole',
         'state names are those of states._task_state_values / _pilot_state_values '
         '(%d + 3 task states, %d + 3 pilot states)' % (NT, NP)]
 
 
 def replay(chk, obj):
-    case = (obj['tasks'], obj['pilots'], obj.get('init_bound', {}), obj['ops'])
+    add  = obj.get('add', 'default')
+    case = (obj['tasks'], obj['pilots'], obj.get('init_bound', {}), obj['ops'],
+            obj.get('modes') or {}, None if add == 'default' else add)
     _check_traces(chk, [case], 'replay')
